@@ -15,7 +15,7 @@ type c06 struct{}
 func (c06) ID() string    { return "C06" }
 func (c06) Level() string { return "exploration" }
 func (c06) Rule() string {
-	return "a model of 3 services (each with a variable-bearing image, a relative build context and a relative bind mount) and a network, volume, file secret, environment-sourced secret and config: every assignment of the services to {main file, included file 1, included file 2} x nesting {flat, chain, diamond} x directory of each included file {same, sub-directory, sibling} x project_directory {absent, relative, absolute} x include syntax {short, long} x environment sources of the included project {none, own .env, one env_file, two env_files} x the variable defined in every subset of {parent environment, included environment}; sibling includes with disjoint and clashing variables; conflicting and identical redefinitions; include cycles of length 1..3; an environment-sourced config/secret inside an included file. Oracle: field-level equality with the pasted model (parent environment first, included environment for what it does not define; paths joined with the included project directory); conflict/cycle -> error. distinct = distinct scenario shapes"
+	return "a model of 3 services (each with a variable-bearing image, a relative build context and a relative bind mount) and a network, volume, file secret, environment-sourced secret and config: every assignment of the services to {main file, included file 1, included file 2} x nesting {flat, chain, diamond} x directory of each included file {same, sub-directory, sibling} x project_directory {absent, relative, absolute} x include syntax {short, long} x environment sources of the included project {none, own .env, one env_file, two env_files} x the variable defined in every subset of {parent environment, included environment} x content of the including project read after the include {none, override file, second document}; sibling includes with disjoint and clashing variables; conflicting and identical redefinitions; include cycles of length 1..3; an environment-sourced config/secret inside an included file. Oracle: field-level equality with the pasted model (parent environment first, included environment for what it does not define; paths joined with the included project directory); conflict/cycle -> error. distinct = distinct scenario shapes"
 }
 func (c06) Assumptions() []string {
 	return []string{"the pasted model is computed by the reference in props/c06.go from the statement"}
@@ -30,10 +30,11 @@ type c06scn struct {
 	envSrc  int // 0 none 1 own .env 2 one env_file 3 two env_files (applies to inc1)
 	parentV bool
 	incV    bool
+	late    int // content of the including project that is read after the include was applied: 0 none, 1 an override file, 2 a second document
 }
 
 func (s c06scn) id() string {
-	return fmt.Sprintf("p%v/n%d/d%v/pd%d/l%v/e%d/pv%v/iv%v", s.place, s.nesting, s.dirKind, s.projDir, s.long, s.envSrc, s.parentV, s.incV)
+	return fmt.Sprintf("p%v/n%d/d%v/pd%d/l%v/e%d/pv%v/iv%v/late%d", s.place, s.nesting, s.dirKind, s.projDir, s.long, s.envSrc, s.parentV, s.incV, s.late)
 }
 
 var c06svc = []string{"a", "b", "c"}
@@ -99,11 +100,16 @@ func (c06) Run(c *core.Ctx) {
 											// quick: the full cross product for one third of the placements; all placements with default dimensions
 											continue
 										}
-										s := c06scn{pl, nesting, [2]int{d1, d2}, pd, long, envSrc, pv == 1, iv == 1}
-										if c.Expired() {
-											return
+										for late := 0; late < 3; late++ {
+											if late > 0 && iv == 0 {
+												continue // later content matters when the included project defines the variable itself
+											}
+											s := c06scn{pl, nesting, [2]int{d1, d2}, pd, long, envSrc, pv == 1, iv == 1, late}
+											if c.Expired() {
+												return
+											}
+											c.Do("inc/"+s.id(), func() core.Outcome { return c06check(s) })
 										}
-										c.Do("inc/"+s.id(), func() core.Outcome { return c06check(s) })
 									}
 								}
 							}
@@ -222,7 +228,17 @@ func c06check(s c06scn) core.Outcome {
 	if s.parentV {
 		parentEnv["V"] = "from-parent"
 	}
-	scn := &Scn{Files: files, Main: []string{incFile[0]}, WD: "proj", Env: parentEnv}
+	mainFiles := []string{incFile[0]}
+	// what the including project itself says after the include: it sees the parent environment only
+	lateDoc := "services:\n  late:\n    image: \"late:${V}\"\n"
+	switch s.late {
+	case 1:
+		files["proj/over.yaml"] = lateDoc
+		mainFiles = append(mainFiles, "proj/over.yaml")
+	case 2:
+		files[incFile[0]] += "---\n" + lateDoc
+	}
+	scn := &Scn{Files: files, Main: mainFiles, WD: "proj", Env: parentEnv}
 	root := scn.Materialise()
 	if s.projDir == 2 {
 		for k, v := range files {
@@ -253,6 +269,16 @@ func c06check(s c06scn) core.Outcome {
 			wantV = incVal
 		}
 		return wantV
+	}
+	if s.late != 0 {
+		want := "late:"
+		if s.parentV {
+			want += "from-parent"
+		}
+		if got := p.Services["late"].Image; got != want {
+			return core.Outcome{Class: "late", Sample: sample, Viol: &core.Violation{Key: fmt.Sprintf("included-environment-leaks-into-includer:late%d", s.late),
+				Msg: fmt.Sprintf("%s: service late of the including project (read after the include) has image %q, expected %q", s.id(), got, want)}}
+		}
 	}
 	if es, ok := p.Secrets["esec"]; !ok || es.Content != valueAt(s.place[0]) || es.Environment != "V" {
 		return core.Outcome{Class: "esec", Sample: sample, Viol: &core.Violation{Key: fmt.Sprintf("wrong-secret-value:where%d:n%d", s.place[0], s.nesting),
